@@ -5,7 +5,7 @@ from vlib import SPEC
 from checks import tracker_common as tc
 MANIFEST = dict(level="model_checking", design="4 (C06)",
     technique="PlusCal/TLA+ spec (Batch.tla) of the predict loop, store workers, voting threads, busy monitor and bounded result channel model-checked for deadlock, termination and one-result-per-scene; hook traces of the real batch trackers under random delays validated against it by TLC; R1 behaviours replayed through the batch API against the same Tracker spec as the simple trackers",
-    text="TLC explores every interleaving of the client/predict loop, the shard workers and the voting threads of the protocol model (labels = hook sites): no deadlock and termination under weak fairness with the proviso (results of a batch retrieved before the next is submitted), exactly one result per scene per batch, monitor never negative, predict never overlaps voters of an earlier batch; without the proviso the model must deadlock (non-vacuity). Real BatchSort / BatchVisualSort runs (distance_shards, voting_shards in 1..4, 2-3 scenes per batch and batches of up to 12 scenes on one or two voting threads, seeded random delays at every hook, watchdog) are recorded at the hook sites and each trace is validated by TLC against BatchTrace (every invariant at every step). Refinement of the simple trackers: the TLC-enumerated R1 behaviours (single- and multi-scene batches) are replayed through the batch API and must give, per scene, the records the Tracker specification computes - the same specification the simple trackers are replayed against - up to renaming of ids.",
+    text="TLC explores every interleaving of the client/predict loop, the shard workers and the voting threads of the protocol model (labels = hook sites): no deadlock and termination under weak fairness with the proviso (results of a batch retrieved before the next is submitted), exactly one result per scene per batch, monitor never negative, predict never overlaps voters of an earlier batch; without the proviso the model must deadlock (non-vacuity); thorough: further instances exhaustively, and those too large to enumerate within a check (one batch of four scenes on three shard workers and four voting threads; three shards x one voter; one shard x three voters) by 3200 simulated behaviours each (invariants and deadlock freedom at every state). Real BatchSort / BatchVisualSort runs (distance_shards, voting_shards in 1..4, 2-3 scenes per batch and batches of up to 12 scenes on one or two voting threads, seeded random delays at every hook, watchdog) are recorded at the hook sites and each trace is validated by TLC against BatchTrace (every invariant at every step). Refinement of the simple trackers: the TLC-enumerated R1 behaviours (single- and multi-scene batches) are replayed through the batch API and must give, per scene, the records the Tracker specification computes - the same specification the simple trackers are replayed against - up to renaming of ids.",
     note="The protocol model abstracts the tracking decision (one detection per scene per batch, first batch adds, later batches merge); grouping equality is decided by the R1 replay. Both halves of the proviso are modelled: sequential retrieval by the client, and a second thread retrieving every batch (half of the recorded traces use it, with slow retrieval and the next batch submitted at once).")
 LEVEL = MANIFEST["level"]
 B = SPEC / "batch"
